@@ -340,8 +340,9 @@ func (c *rrComp) Gen(rng *rand.Rand, idx int, tier string, targeted bool) hlib.H
 				emit(1, tableKeys[id], id)
 			}
 		}
-		if W > 0 && (tier == "thorough" && rng.Intn(3) == 0 || rng.Intn(25) == 0) && W <= 600 {
-			emit(7, int64(1+rng.Intn(3)))
+		if W > 0 && (tier == "thorough" && rng.Intn(3) == 0 || rng.Intn(6) == 0) && W <= 600 {
+			// enough selections for the goroutines to overlap for real: some thousand, a whole number of rotations
+			emit(7, (1500+int64(rng.Intn(1500)))/W+1)
 		}
 		// pool change(s)
 		for k := 1 + rng.Intn(2); k > 0; k-- {
@@ -733,7 +734,7 @@ func (c *rrComp) Run(h *hlib.History) ([]hlib.Mon, bool) {
 			obs = append(obs, r.dump()...)
 		case op[0] == 7 && len(op) == 2:
 			mult := op[1]
-			if mult < 0 || mult > 50 {
+			if mult < 0 || mult > 5000 {
 				return nil, false
 			}
 			if W == 0 {
